@@ -14,6 +14,12 @@
 #include <errno.h>
 #include <fcntl.h>
 #include <signal.h>
+#include <stdarg.h>
+#include <poll.h>
+#include <sys/ioctl.h>
+#include <linux/sockios.h>
+#include <netinet/in.h>
+#include <arpa/inet.h>
 #include <sys/epoll.h>
 #include <sys/socket.h>
 #include <sys/uio.h>
@@ -57,6 +63,13 @@ static bool g_filter = false;
 static std::string g_wire_new;
 static std::map<std::string, uint64_t> g_faults;
 static int g_nevents = 0;            // fd events delivered by the filtered epoll_wait (quiescence detection)
+// the kernel queue as the peer application sees it: bytes that arrived at the peer socket and were not yet
+// read by the peer application (`pread`), and how the transport ended (first terminal result of read(2))
+static std::string g_stash;
+static char g_tr_end = 'o', g_app_end = 'o';      // 'o' open, 'e' EOF, 'r' reset
+static std::vector<std::string> g_sys;             // system calls on the descriptor under test besides write/readv (M line)
+static bool g_closed = false;                      // close(2) was called on the descriptor under test
+static bool g_shut = false, g_refused = false;     // shutdown(SHUT_WR) was called / write(2) was asked to accept bytes afterwards
 
 typedef ssize_t (*write_t)(int, const void *, size_t);
 typedef ssize_t (*read_t)(int, void *, size_t);
@@ -69,9 +82,14 @@ static epoll_wait_t real_epoll_wait() { static epoll_wait_t f = (epoll_wait_t)dl
 
 static void drain_peer() {
     static char buf[1 << 16];
+    if (g_peer < 0) return;
     for (;;) {
         ssize_t r = real_read()(g_peer, buf, sizeof(buf));
-        if (r > 0) g_wire_new.append(buf, r); else break;
+        if (r > 0) { g_wire_new.append(buf, r); g_stash.append(buf, r); continue; }
+        // how the transport ended: an error (ECONNRESET is reported by one read only, so it sticks) or, so far, EOF
+        if (r == 0) { if (g_tr_end == 'o') g_tr_end = 'e'; }
+        else if (errno != EAGAIN && errno != EINTR) g_tr_end = 'r';
+        break;
     }
 }
 
@@ -83,6 +101,7 @@ extern "C" ssize_t write(int fd, const void *p, size_t n) {
     if (a.kind == 'e') { errno = EAGAIN; return -1; }
     if (a.kind == 'x') { errno = EPIPE; return -1; }
     size_t k = a.k < n ? a.k : n, done = 0;
+    if (g_shut && k > 0) { g_refused = true; errno = EPIPE; return -1; }     // not an execution of the kernel: the case ends here
     while (done < k) {      // the kernel takes exactly k bytes: make room by letting the peer read
         ssize_t r = real_write()(fd, (const char *)p + done, k - done);
         if (r > 0) { done += r; continue; }
@@ -125,11 +144,63 @@ extern "C" int epoll_wait(int epfd, struct epoll_event *ev, int max, int timeout
     return m;
 }
 
+// system calls on the descriptor under test are recorded (M line `sys=`)
+typedef int (*fcntl_t)(int, int, ...);
+typedef int (*setsockopt_t)(int, int, int, const void *, socklen_t);
+typedef int (*shutdown_t)(int, int);
+typedef int (*close_t)(int);
+typedef int (*listen_t)(int, int);
+static int fcntl_common(const char *name, int fd, int cmd, long arg) {
+    static fcntl_t real = nullptr, real64 = nullptr;
+    if (!real) { real = (fcntl_t)dlsym(RTLD_NEXT, "fcntl"); real64 = (fcntl_t)dlsym(RTLD_NEXT, "fcntl64"); if (!real64) real64 = real; }
+    if (fd >= 0 && fd == g_fd) {
+        // only what the byte stream depends on is recorded: the blocking mode (other fcntl commands change nothing the property speaks about)
+        if (cmd == F_SETFL) g_sys.push_back((arg & O_NONBLOCK) ? "nonblock" : "blocking");
+    }
+    return (name[5] == '6' ? real64 : real)(fd, cmd, arg);
+}
+extern "C" int fcntl(int fd, int cmd, ...) { va_list ap; va_start(ap, cmd); long a = va_arg(ap, long); va_end(ap); return fcntl_common("fcntl", fd, cmd, a); }
+extern "C" int fcntl64(int fd, int cmd, ...) { va_list ap; va_start(ap, cmd); long a = va_arg(ap, long); va_end(ap); return fcntl_common("fcntl64", fd, cmd, a); }
+static int g_tcp_fd = -1;          // the library-side connection of the AF_INET scenario (accepted / connected there)
+static std::vector<std::string> g_tcp_sys;
+extern "C" int setsockopt(int fd, int level, int name, const void *val, socklen_t len) {
+    static setsockopt_t real = (setsockopt_t)dlsym(RTLD_NEXT, "setsockopt");
+    // SO_LINGER decides what close(2) does with the send queue; other options do not touch the stream
+    if (fd >= 0 && (fd == g_fd || fd == g_tcp_fd) && level == SOL_SOCKET && name == SO_LINGER && val && len >= sizeof(struct linger)) {
+        const struct linger *l = (const struct linger *)val;
+        (fd == g_fd ? g_sys : g_tcp_sys).push_back("linger:" + std::to_string(l->l_onoff != 0) + ":" + std::to_string(l->l_linger));
+    }
+    return real(fd, level, name, val, len);
+}
+extern "C" int shutdown(int fd, int how) {
+    static shutdown_t real = (shutdown_t)dlsym(RTLD_NEXT, "shutdown");
+    if (fd >= 0 && fd == g_fd) { g_sys.push_back("shutdown:" + std::to_string(how)); if (how == SHUT_WR || how == SHUT_RDWR) g_shut = true; }
+    if (fd >= 0 && fd == g_tcp_fd) g_tcp_sys.push_back("shutdown:" + std::to_string(how));
+    return real(fd, how);
+}
+extern "C" int close(int fd) {
+    static close_t real = (close_t)dlsym(RTLD_NEXT, "close");
+    if (fd >= 0 && fd == g_fd) { g_sys.push_back("close"); g_fd = -1; g_closed = true; }      // the number may be reused: interposition ends here
+    if (fd >= 0 && fd == g_tcp_fd) { g_tcp_sys.push_back("close"); g_tcp_fd = -1; }
+    return real(fd);
+}
+static int g_listen_fd = -1;
+extern "C" int listen(int fd, int backlog) {
+    static listen_t real = (listen_t)dlsym(RTLD_NEXT, "listen");
+    g_listen_fd = fd;
+    return real(fd, backlog);
+}
+
 // fault switches for the plumbing ops: the next n calls fail / report as asked
 static int g_sock_fail = 0;        // socket(2) -> EMFILE
 static int g_accept_fail = 0;      // accept(2) -> EMFILE
 static int g_late_fail = 0;        // getsockopt(SO_ERROR) on a connecting socket -> ECONNREFUSED
 static bool g_inprogress = false;  // connect(2) -> EINPROGRESS although the connection is made
+static int g_accept_errno = EMFILE;   // what a failing accept(2) answers (EMFILE / EAGAIN / ECONNABORTED), the connection stays pending
+static int g_accept_abort = 0;     // accept(2) -> ECONNABORTED and the pending connection is gone
+static int g_conn_refuse = 0;      // connect(2) -> ECONNREFUSED at once
+static int g_inprogress_errno = EINPROGRESS;   // EINPROGRESS or EINTR
+static bool g_tcp_want_fd = false;  // the next accepted / connecting AF_INET descriptor is the one of the scenario
 typedef int (*socket_t)(int, int, int);
 typedef int (*accept_t)(int, struct sockaddr *, socklen_t *);
 typedef int (*connect_t)(int, const struct sockaddr *, socklen_t);
@@ -141,13 +212,18 @@ extern "C" int socket(int d, int t, int p) {
 }
 extern "C" int accept(int fd, struct sockaddr *a, socklen_t *l) {
     static accept_t real = (accept_t)dlsym(RTLD_NEXT, "accept");
-    if (g_accept_fail > 0) { --g_accept_fail; errno = EMFILE; return -1; }
-    return real(fd, a, l);
+    if (g_accept_fail > 0) { --g_accept_fail; errno = g_accept_errno; return -1; }
+    int r = real(fd, a, l);
+    if (r >= 0 && g_accept_abort > 0) { --g_accept_abort; close(r); errno = ECONNABORTED; return -1; }
+    if (r >= 0 && g_tcp_want_fd) { g_tcp_fd = r; g_tcp_want_fd = false; }
+    return r;
 }
 extern "C" int connect(int fd, const struct sockaddr *a, socklen_t l) {
     static connect_t real = (connect_t)dlsym(RTLD_NEXT, "connect");
+    if (g_conn_refuse > 0 && a && a->sa_family == AF_UNIX) { --g_conn_refuse; errno = ECONNREFUSED; return -1; }
     int r = real(fd, a, l);
-    if (r == 0 && g_inprogress && a && a->sa_family == AF_UNIX) { errno = EINPROGRESS; return -1; }
+    if (g_tcp_want_fd && a && a->sa_family == AF_INET) { int e = errno; g_tcp_fd = fd; g_tcp_want_fd = false; errno = e; }
+    if (r == 0 && g_inprogress && a && a->sa_family == AF_UNIX) { errno = g_inprogress_errno; return -1; }
     return r;
 }
 extern "C" int getsockopt(int fd, int level, int name, void *val, socklen_t *len) {
@@ -184,9 +260,17 @@ static std::string digest(const uint8_t *p, size_t n) {
     return b;
 }
 
+// the payload is handed over in a heap block of exactly its size whose end touches the ASan redzone, starting at
+// every alignment 0..7 in turn: a read before the start or past the end of what the caller passed is a report
 static bool api_send(const std::vector<uint8_t> &d) {
-    const void *p = d.empty() ? (const void *)&g_dummy : (const void *)d.data();
-    return g_conn ? g_c->send(p, d.size()) : g_b->send(p, d.size());
+    static unsigned turn = 0;
+    size_t off = (turn++) % 8;
+    uint8_t *blk = (uint8_t *)malloc(d.size() + off + (d.empty() && off == 0 ? 1 : 0));
+    uint8_t *p = blk + off;
+    if (!d.empty()) memcpy(p, d.data(), d.size());
+    bool r = g_conn ? g_c->send(p, d.size()) : g_b->send(p, d.size());
+    free(blk);
+    return r;
 }
 
 static void run_acts(const Script &s) {
@@ -238,6 +322,7 @@ static void reset_case() {
     if (g_peer >= 0) { close(g_peer); g_peer = -1; }
     g_wq.clear(); g_rq.clear(); g_wmax = g_rmax = g_pending = 0; g_drain = false;
     g_wire_new.clear(); g_ev.clear();
+    g_stash.clear(); g_tr_end = g_app_end = 'o'; g_sys.clear(); g_shut = g_refused = g_closed = false;
     g_rcb = g_scb = g_zcb = g_recb = g_wecb = g_dcb = Script();
     g_consume = 0; g_conn = false; g_eof = false;
 }
@@ -328,13 +413,16 @@ static void report(int ret) {
     if (ev.empty()) ev = "-";
     std::cout << "P ret=" << ret << " st=" << st << " ev=" << ev
               << " wire+=" << digest((const uint8_t *)g_wire_new.data(), g_wire_new.size()) << " rq=" << rq << "\n";
+    std::string sys;
+    for (auto &e : g_sys) { if (!sys.empty()) sys += ","; sys += e; }
+    if (sys.empty()) sys = "-";
     if (b)
         std::cout << "M armed=" << (b->sp_write_event_ && b->sp_write_event_->isEnabled() ? 1 : 0)
                   << " ron=" << (b->sp_read_event_ && b->sp_read_event_->isEnabled() ? 1 : 0)
-                  << " sq=" << b->send_buff_.readableSize() << "\n";
+                  << " sq=" << b->send_buff_.readableSize() << " sys=" << sys << "\n";
     else
-        std::cout << "M gone\n";
-    g_ev.clear(); g_wire_new.clear();
+        std::cout << "M gone sys=" << sys << "\n";
+    g_ev.clear(); g_wire_new.clear(); g_sys.clear();
 }
 
 
@@ -493,6 +581,131 @@ static void run_e2e(bool sc, uint64_t n1, uint64_t c1, uint64_t n2, uint64_t c2,
     std::cout << "M e2e spres=" << (srv.presentations > 0) << " cpres=" << (cli.presentations > 0) << "\n";
 }
 
+
+// ---------------------------------------------------------------- AF_INET loopback, active close (no interposed I/O)
+// tcp <sd|ss|cs> <cb|op> <rcvbuf> <chunk> <seed:len,seed:len,...>
+// A real TcpServer (sd: TcpServer::disconnect(token), ss: TcpServer::stop()) or TcpClient (cs: TcpClient::stop())
+// on 127.0.0.1, ephemeral port, against a raw non-blocking peer socket with SO_RCVBUF = rcvbuf.  The library side
+// queues all payloads in its connected callback and closes actively at send-complete: from inside that callback
+// (cb) or from the main flow right after the loop pass that delivered it (op).  The peer is as slow as a peer can
+// be without stalling the sender for ever: it reads one chunk only when a loop pass of the library found nothing
+// to do (its kernel buffers are full); after the close it reads until EOF or an error.  No step depends on
+// wall-clock time (a 120 s watchdog turns a hang into `end=timeout`).
+static uint64_t g_tcp_outq_at_close = 0;
+static void run_tcp(const std::string &closer, bool in_cb, bool unread, uint64_t rcvbuf, uint64_t chunk,
+                    const std::vector<std::pair<uint64_t, uint64_t>> &sizes) {
+    using namespace network;
+    std::vector<std::vector<uint8_t>> payloads(sizes.size());
+    size_t total = 0;
+    for (size_t i = 0; i < sizes.size(); ++i) { gen_bytes(sizes[i].first, sizes[i].second, payloads[i]); total += payloads[i].size(); }
+    int sc = 0, disc = 0;
+    bool want_close = false, closed = false;
+    int raw = -1, lst = -1;
+    std::string got; got.reserve(total + 16);
+    char end = 'o';
+    std::vector<char> buf(chunk);
+    g_tcp_sys.clear(); g_tcp_fd = -1; g_tcp_outq_at_close = 0;
+    auto peer_read_once = [&]() -> bool {       // true if something happened
+        if (raw < 0 || end != 'o') return false;
+        ssize_t r = real_read()(raw, buf.data(), buf.size());
+        if (r > 0) { got.append(buf.data(), r); return true; }
+        if (r == 0) { end = 'e'; return true; }
+        if (errno == EAGAIN || errno == EINTR) return false;
+        end = 'r'; return true;
+    };
+    auto note_outq = [&] { int q = 0; if (g_tcp_fd >= 0 && ioctl(g_tcp_fd, SIOCOUTQ, &q) == 0 && q > 0) g_tcp_outq_at_close = (uint64_t)q; };
+    struct timespec t0; clock_gettime(CLOCK_MONOTONIC, &t0);
+    auto expired = [&] { struct timespec t; clock_gettime(CLOCK_MONOTONIC, &t); return t.tv_sec - t0.tv_sec > 120; };
+    auto one_pass = [&] { g_filter = true; g_mask = 0xffffffffu; g_nevents = 0; g_loop->runLoop(event::Loop::Mode::kOnce); g_filter = false; g_mask = 0; };
+
+    TcpServer *server = nullptr; TcpClient *client = nullptr;
+    TcpServer::ConnToken tok;
+    std::function<void()> do_close;
+    if (closer != "cs") {
+        server = new TcpServer(g_loop);
+        g_listen_fd = -1;
+        server->initialize(SockAddr(IPAddress::Loop(), 0), 4);
+        struct sockaddr_in sa; socklen_t sl = sizeof(sa); memset(&sa, 0, sizeof(sa));
+        getsockname(g_listen_fd, (struct sockaddr *)&sa, &sl);
+        do_close = [&] { note_outq(); if (closer == "sd") server->disconnect(tok); else server->stop(); closed = true; };
+        server->setConnectedCallback([&](const TcpServer::ConnToken &t) {
+            tok = t;
+            for (auto &d : payloads) server->send(t, d.empty() ? (const void *)&g_dummy : (const void *)d.data(), d.size());
+        });
+        server->setReceiveCallback([&](const TcpServer::ConnToken &, Buffer &b) { b.hasReadAll(); }, 0);
+        server->setSendCompleteCallback([&](const TcpServer::ConnToken &) { ++sc; if (closed) return; if (in_cb) do_close(); else want_close = true; });
+        server->setDisconnectedCallback([&](const TcpServer::ConnToken &) { ++disc; });
+        server->start();
+        raw = socket(AF_INET, SOCK_STREAM | SOCK_NONBLOCK, 0);
+        int rb = (int)rcvbuf; setsockopt(raw, SOL_SOCKET, SO_RCVBUF, &rb, sizeof(rb));
+        ::connect(raw, (struct sockaddr *)&sa, sl);
+        g_tcp_want_fd = true;                      // the descriptor the server accepts is the one under observation
+    } else {
+        lst = socket(AF_INET, SOCK_STREAM | SOCK_NONBLOCK, 0);
+        int rb = (int)rcvbuf; setsockopt(lst, SOL_SOCKET, SO_RCVBUF, &rb, sizeof(rb));
+        struct sockaddr_in sa; socklen_t sl = sizeof(sa); memset(&sa, 0, sizeof(sa));
+        sa.sin_family = AF_INET; sa.sin_addr.s_addr = htonl(INADDR_LOOPBACK); sa.sin_port = 0;
+        bind(lst, (struct sockaddr *)&sa, sl); listen(lst, 4); getsockname(lst, (struct sockaddr *)&sa, &sl);
+        client = new TcpClient(g_loop);
+        client->initialize(SockAddr(IPAddress::Loop(), ntohs(sa.sin_port)));
+        client->setAutoReconnect(false);
+        do_close = [&] { note_outq(); client->stop(); closed = true; };
+        client->setConnectedCallback([&] {
+            for (auto &d : payloads) client->send(d.empty() ? (const void *)&g_dummy : (const void *)d.data(), d.size());
+        });
+        client->setReceiveCallback([&](Buffer &b) { b.hasReadAll(); }, 0);
+        client->setSendCompleteCallback([&] { ++sc; if (closed) return; if (in_cb) do_close(); else want_close = true; });
+        client->setDisconnectedCallback([&] { ++disc; });
+        g_tcp_want_fd = true;
+        client->start();
+    }
+    // phase 1: until the library side has closed and the pass that runs its deferred tasks is over
+    int after_close = 0;
+    while (after_close < 2 && !expired()) {
+        one_pass();
+        if (lst >= 0 && raw < 0) {
+            static accept_t real_accept = (accept_t)dlsym(RTLD_NEXT, "accept");
+            int r = real_accept(lst, nullptr, nullptr);
+            if (r >= 0) { raw = r; fcntl(raw, F_SETFL, fcntl(raw, F_GETFL, 0) | O_NONBLOCK); }
+        }
+        if (want_close && !closed) {
+            if (unread && raw >= 0) {
+                // the peer writes 100 bytes and the close follows before any loop pass can read them: wait (no pass in
+                // between) until they have arrived in the library side's socket
+                char in[100]; memset(in, 0x5a, sizeof(in));
+                if (real_write()(raw, in, sizeof(in)) != (ssize_t)sizeof(in)) { fprintf(stderr, "harness: inbound write failed errno=%d\n", errno); abort(); }
+                int avail = 0;
+                while (!expired()) { if (g_tcp_fd >= 0 && ioctl(g_tcp_fd, FIONREAD, &avail) == 0 && avail > 0) break; sched_yield(); }
+            }
+            do_close(); continue;
+        }
+        if (closed) { ++after_close; continue; }
+        if (g_nevents == 0) peer_read_once();     // the sender is stuck: let the peer take one chunk
+    }
+    // phase 2: the peer reads to the end
+    while (end == 'o' && !expired()) {
+        if (!peer_read_once()) {
+            struct pollfd pf; pf.fd = raw; pf.events = POLLIN; pf.revents = 0;
+            poll(&pf, 1, 20);
+            one_pass();
+        }
+    }
+    if (end == 'o') end = 't';
+    if (raw >= 0) close(raw);
+    if (lst >= 0) close(lst);
+    if (server) { server->cleanup(); delete server; }
+    if (client) { client->cleanup(); delete client; }
+    flush_loop();
+    g_tcp_want_fd = false; g_tcp_fd = -1;
+    std::string sys;
+    for (auto &e : g_tcp_sys) { if (!sys.empty()) sys += ","; sys += e; }
+    // with unread inbound data at the close how much still arrives is the kernel's business (oracle `keep`)
+    std::cout << "P tcp got=" << (unread ? std::string("*") : digest((const uint8_t *)got.data(), got.size()))
+              << " end=" << (end == 'e' ? "eof" : end == 'r' ? "reset" : "timeout") << " sc=" << sc << " disc=" << disc << "\n";
+    std::cout << "M tcp sys=" << (sys.empty() ? "-" : sys) << "\n";
+    std::cout << "B tcp-outq-at-close=" << g_tcp_outq_at_close << " tcp-got=" << got.size() << "/" << total << "\n";
+}
+
 // ---------------------------------------------------------------- the TCP plumbing ("net" ops)
 // One TcpServer, two TcpClients, one bare TcpConnector and one raw peer socket on a Unix-domain
 // socket, real loop, virtual clock.  After every op the loop runs passes (epoll timeout 0) until
@@ -636,7 +849,8 @@ static void destroy() {
     drain();
     toks.clear(); sv_ev.clear(); sv_conn.clear(); sv_disc.clear(); sv_recv.clear(); sv_sc.clear();
     raw_got.clear(); raw_eof = false; raw_hold = false; g_livelock = false;
-    g_sock_fail = g_accept_fail = g_late_fail = 0; g_inprogress = false; g_budget = 0;
+    g_sock_fail = g_accept_fail = g_late_fail = g_accept_abort = g_conn_refuse = 0; g_inprogress = false; g_budget = 0;
+    g_accept_errno = EMFILE; g_inprogress_errno = EINPROGRESS;
     unlink(g_path.c_str());
 }
 // canonical form of the callbacks of one connection in one op: C? R<all bytes>? S? D?  (how many
@@ -752,11 +966,11 @@ static bool op(const std::vector<std::string> &w) {
         if (w[1] == "fail") kn_fail = sc; else if (w[1] == "conn") kn_conn = sc; else return false;
     }
     else if (o == "nrconn" && w.size() == 1 && raw_fd < 0) {
-        int sf = g_sock_fail; bool ip = g_inprogress; g_sock_fail = 0; g_inprogress = false;     // the faults are for the library's calls
+        int sf = g_sock_fail, cr = g_conn_refuse; bool ip = g_inprogress; g_sock_fail = 0; g_conn_refuse = 0; g_inprogress = false;     // the faults are for the library's calls
         raw_fd = socket(AF_UNIX, SOCK_STREAM | SOCK_NONBLOCK, 0);
         struct sockaddr_un a; socklen_t len = addr.toSockAddr(a);
         ret = ::connect(raw_fd, (struct sockaddr *)&a, len) == 0;
-        g_sock_fail = sf; g_inprogress = ip;
+        g_sock_fail = sf; g_inprogress = ip; g_conn_refuse = cr;
         if (!ret) { close(raw_fd); raw_fd = -1; } else raw_eof = false;
     }
     else if (o == "nrsend" && w.size() == 2 && raw_fd >= 0 && vh::unhex(w[1], d) && d.size() <= 1024 && !d.empty())
@@ -764,9 +978,17 @@ static bool op(const std::vector<std::string> &w) {
     else if (o == "nrclose" && w.size() == 1 && raw_fd >= 0) { close(raw_fd); raw_fd = -1; }
     else if (o == "nrhold" && w.size() == 3 - 1 && vh::to_u64(w[1], n) && n <= 1) raw_hold = (n == 1);
     else if (o == "nfault" && w.size() == 3 && vh::to_u64(w[2], n) && n <= 8 &&
-             (w[1] == "socket" || w[1] == "accept" || w[1] == "late" || w[1] == "inprog")) {
-        if (w[1] == "socket") g_sock_fail = (int)n; else if (w[1] == "accept") g_accept_fail = (int)n;
-        else if (w[1] == "late") g_late_fail = (int)n; else g_inprogress = n != 0;
+             (w[1] == "socket" || w[1] == "accept" || w[1] == "late" || w[1] == "inprog" || w[1] == "eintr" || w[1] == "again"
+              || w[1] == "abortkeep" || w[1] == "refuse" || w[1] == "abort")) {
+        if (w[1] == "socket") g_sock_fail = (int)n;
+        else if (w[1] == "accept") { g_accept_fail = (int)n; g_accept_errno = EMFILE; }
+        else if (w[1] == "again") { g_accept_fail = (int)n; g_accept_errno = EAGAIN; }
+        else if (w[1] == "abortkeep") { g_accept_fail = (int)n; g_accept_errno = ECONNABORTED; }
+        else if (w[1] == "abort") g_accept_abort = (int)n;
+        else if (w[1] == "refuse") g_conn_refuse = (int)n;
+        else if (w[1] == "late") g_late_fail = (int)n;
+        else if (w[1] == "eintr") { g_inprogress = n != 0; g_inprogress_errno = EINTR; }
+        else { g_inprogress = n != 0; g_inprogress_errno = EINPROGRESS; }
     }
     else if (o == "nadv" && w.size() == 2 && vh::to_u64(w[1], n) && n <= 100000) vt::advance_ms((int64_t)n);
     else return false;
@@ -802,6 +1024,19 @@ int main() {
         }
         std::vector<uint8_t> d; uint64_t n = 0, k = 0; Script sc;
         bool ok = true; int ret = 1;
+        if (g_refused) { std::cout << "P kernel-refuses\n"; continue; }      // nothing more is compared in this case
+        if (op == "pread" && w.size() == 2 && vh::to_u64(w[1], n) && n >= 1) {
+            // the peer application reads at most n bytes of what has arrived; with nothing there it learns how the stream ended
+            drain_peer();
+            std::string got;
+            if (g_app_end == 'o') {
+                if (!g_stash.empty()) { got = g_stash.substr(0, n); g_stash.erase(0, got.size()); }
+                else g_app_end = g_tr_end;
+            }
+            std::cout << "P pread got=" << digest((const uint8_t *)got.data(), got.size())
+                      << " end=" << (g_app_end == 'o' ? "open" : g_app_end == 'e' ? "eof" : "reset") << "\n";
+            continue;
+        }
         if (op == "init" && w.size() == 2 && vh::to_u64(w[1], n) && n <= 7 && !g_conn) {
             ret = g_b->initialize(g_fdobj, (short)n);
         } else if (op == "initnull" && w.size() == 1 && !g_conn) {
@@ -810,6 +1045,7 @@ int main() {
             g_c = new TcpConnection(g_loop, network::SocketFd(g_fdobj), network::SockAddr());
             g_c->enable();                      // as TcpAcceptor / TcpConnector do
             g_conn = true;
+            g_fdobj = util::Fd();               // the connection holds the only reference: its deferred delete closes the descriptor
         } else if (op == "en" && w.size() == 1 && !g_conn) {
             ret = g_b->enable();
         } else if (op == "dis" && w.size() == 1 && !g_conn) {
@@ -835,7 +1071,11 @@ int main() {
             g_dcb = sc; g_c->setDisconnectedCallback(plain_cb(&g_dcb, "DC"));
         } else if (op == "disc" && w.size() == 1 && g_conn) {
             ret = g_c->disconnect();
-        } else if (op == "feed" && w.size() == 2 && data(w[1], d) && !g_eof && g_pending + d.size() <= 65536) {
+        } else if (op == "shut" && w.size() == 1 && g_conn) {
+            ret = g_c->shutdown(SHUT_WR);
+        } else if (op == "defer" && w.size() == 1) {
+            flush_loop();                       // a loop pass without events on the descriptor: the deferred tasks run
+        } else if (op == "feed" && w.size() == 2 && data(w[1], d) && !g_eof && !g_closed && g_pending + d.size() <= 65536) {
             size_t done = 0;
             while (done < d.size()) {
                 ssize_t r = real_write()(g_peer, d.data() + done, d.size() - done);
@@ -864,6 +1104,27 @@ int main() {
             pass(EPOLLOUT);
         } else if (op == "rw" && w.size() == 1) {
             pass(EPOLLIN | EPOLLHUP | EPOLLERR | EPOLLRDHUP | EPOLLOUT);
+        } else if (op == "tcp" && w.size() == 6) {
+            uint64_t rb, ch; std::vector<std::pair<uint64_t, uint64_t>> sizes; bool good = true;
+            if ((w[1] != "sd" && w[1] != "ss" && w[1] != "cs") || (w[2] != "cb" && w[2] != "op" && w[2] != "opu") || !vh::to_u64(w[3], rb) || !vh::to_u64(w[4], ch)
+                || rb < 1024 || rb > 1048576 || ch < 256 || ch > 1048576) good = false;
+            size_t pos = 0, total = 0;
+            while (good) {
+                size_t c = w[5].find(',', pos);
+                std::string t = w[5].substr(pos, c == std::string::npos ? std::string::npos : c - pos);
+                size_t colon = t.find(':'); uint64_t sd, ln;
+                if (colon == std::string::npos || !vh::to_u64(t.substr(0, colon), sd) || !vh::to_u64(t.substr(colon + 1), ln) || sd >= 256 || ln == 0 || ln > 8388608) { good = false; break; }
+                sizes.push_back({sd, ln}); total += ln;
+                if (c == std::string::npos) break;
+                pos = c + 1;
+            }
+            if (!good || sizes.size() > 16 || total > 33554432) { std::cout << "bad-op\n"; continue; }
+            int saved = g_fd; g_fd = -1;           // no interposed I/O, real clock
+            vt::disable();
+            run_tcp(w[1], w[2] == "cb", w[2] == "opu", rb, ch, sizes);
+            vt::enabled = true;
+            g_fd = saved;
+            continue;
         } else if (op == "e2e" && w.size() == 9) {
             uint64_t n1, c1, n2, c2, thr, sb;
             bool sc = w[1] == "sc";
@@ -880,6 +1141,7 @@ int main() {
             continue;
         } else ok = false;
         if (!ok) { std::cout << "bad-op\n"; continue; }
+        if (g_refused) { std::cout << "P kernel-refuses\n"; continue; }
         report(ret);
     }
     reset_case();
